@@ -88,6 +88,10 @@ pub struct Scn {
     /// access-list reloads: (at ms, new list, file has a malformed line = the reload must fail)
     #[serde(default)]
     pub reloads: Vec<(u32, Vec<u8>, bool)>,
+    /// expiry probe: (max_peer_age, torrent_cleaning_interval) in seconds; two scripted connections work torrent 7 and
+    /// its scrape counts are judged against deadline windows (the final quiescent scrape is not judged then)
+    #[serde(default)]
+    pub probe: Option<(u32, u64)>,
     /// privileges.drop_privileges: the socket workers rendezvous at a barrier after binding (the chroot itself is not simulated)
     #[serde(default)]
     pub drop_priv: bool,
@@ -708,6 +712,36 @@ impl Harness for WsSys {
                 conns.push(WConn { v6, ac: 0, h: 10 + i as u16, pick: 1, start_ms: 30, script });
             }
         }
+        // expiry probe: one connection re-announces every second, one announces once; both scrape every second
+        let probe: Option<(u32, u64)> = if !flood && !c19 && !c12 && access_mode == 0 && r.chance(if prop == "C10" { 300 } else { 50 }) {
+            Some(*r.pick(&[(4u32, 1u64), (4, 2), (6, 2), (4, 6), (6, 6)]))
+        } else {
+            None
+        };
+        if let Some((age, interval)) = probe {
+            let v6 = match layout % 3 {
+                0 => false,
+                1 => true,
+                _ => r.chance(500),
+            };
+            let span = 2 * age as u64 + interval + 5;
+            let mut s1 = Vec::new();
+            for k in 0..span {
+                if k < age as u64 + 3 {
+                    s1.push(WOp::Ann { t: 7, ev: Some(2), left: Some(5), offers: 0, ansp: None, nowait: false });
+                }
+                s1.push(WOp::Scr { ts: Some(vec![7]) });
+                s1.push(WOp::Sleep { ms: 1000 });
+            }
+            let mut s2 = vec![WOp::Ann { t: 7, ev: Some(0), left: Some(0), offers: 0, ansp: None, nowait: false }];
+            for _ in 0..span {
+                s2.push(WOp::Sleep { ms: 1000 });
+                s2.push(WOp::Scr { ts: Some(vec![7]) });
+            }
+            for (j, script) in [s1, s2].into_iter().enumerate() {
+                conns.push(WConn { v6, ac: 0, h: 100 + j as u16, pick: 0, start_ms: 0, script });
+            }
+        }
         let mut faults = Vec::new();
         if c19 {
             let mut threads: Vec<String> = (1..=socket_workers).map(|i| format!("socket-{:02}", i)).collect();
@@ -728,6 +762,7 @@ impl Harness for WsSys {
         }
         let access_list: Vec<u8> = (0..r.below(3)).map(|_| r.below(4) as u8).collect();
         let duration_ms = if c19 { 35_000 } else { r.range(8_000, 20_000) };
+        let duration_ms = probe.map_or(duration_ms, |(a, i)| (2 * a as u64 + i + 9) * 1000);
         let reloads: Vec<(u32, Vec<u8>, bool)> = if access_mode != 0 && !c19 && r.chance(if prop == "C11" { 700 } else { 300 }) {
             (0..r.range(1, 2)).map(|_| (r.range(300, duration_ms - 2000) as u32, (0..r.below(3)).map(|_| r.below(4) as u8).collect(), r.chance(200))).collect()
         } else {
@@ -736,7 +771,7 @@ impl Harness for WsSys {
         if !reloads.is_empty() {
             // on torrents whose permission changes with a reload connections only use their own peer id
             // (whether the tracker recorded an earlier announce is then irrelevant to what it must answer)
-            let tmp = Scn { socket_workers, swarm_workers, layout, max_offers: 0, max_scrape_torrents: 1, max_peer_age: 0, max_offer_age: 0, cleaning_interval: 0, conn_cleaning_interval: 0, max_connection_idle: 0, access_mode, access_list: access_list.clone(), sched_strategy: 0, sched_seed: 0, entropy_seed: 0, yield_permille: 0, duration_ms, conns: vec![], faults: vec![], reloads: reloads.clone(), drop_priv: false };
+            let tmp = Scn { socket_workers, swarm_workers, layout, max_offers: 0, max_scrape_torrents: 1, max_peer_age: 0, max_offer_age: 0, cleaning_interval: 0, conn_cleaning_interval: 0, max_connection_idle: 0, access_mode, access_list: access_list.clone(), sched_strategy: 0, sched_seed: 0, entropy_seed: 0, yield_permille: 0, duration_ms, conns: vec![], faults: vec![], reloads: reloads.clone(), probe: None, drop_priv: false };
             let d = dynamic_torrents(&tmp);
             for c in conns.iter_mut() {
                 for op in c.script.iter_mut() {
@@ -756,9 +791,9 @@ impl Harness for WsSys {
             layout,
             max_offers: if flood { 30 } else { *r.pick(&[0usize, 1, 2, 10]) },
             max_scrape_torrents: *r.pick(&[1usize, 2, 255]),
-            max_peer_age: 600,
+            max_peer_age: probe.map_or(600, |p| p.0),
             max_offer_age: *r.pick(&[2u32, 120]),
-            cleaning_interval: *r.pick(&[3u64, 30]),
+            cleaning_interval: probe.map_or(*r.pick(&[3u64, 30]), |p| p.1),
             conn_cleaning_interval: *r.pick(&[2u64, 30]),
             max_connection_idle: if !c19 && r.chance(200) { *r.pick(&[3u32, 6]) } else { 180 },
             access_mode,
@@ -771,6 +806,7 @@ impl Harness for WsSys {
             conns,
             faults,
             reloads,
+            probe,
             drop_priv: r.chance(300),
         }
     }
@@ -1152,8 +1188,67 @@ impl Harness for WsSys {
         if answer_deliveries.values().any(|v| !v.is_empty()) {
             stats.probe("answer-relayed");
         }
+        // ---- expiry probe (C10): scrape counts of torrent 7 against deadline windows
+        if let (true, Some((age, interval))) = (violations.is_empty(), scn.probe) {
+            let (age_ns, int_ns) = (age as u64 * 1_000_000_000, interval * 1_000_000_000);
+            // per probe connection: (sent ns, done ns, invoke seq, return seq) of every answered announce of torrent 7
+            let mut anns: Vec<Vec<(u64, u64, u64, u64)>> = Vec::new();
+            let mut scrs: Vec<(u64, u64, u64, u64, i64)> = Vec::new();
+            for log in &col.logs {
+                let mut mine = Vec::new();
+                let mut at = 0u64;
+                let mut pend: Option<(bool, u64, u64)> = None; // (is announce, sent ns, seq)
+                for e in log {
+                    match e {
+                        Ev::At { ns } => at = *ns,
+                        Ev::SentAnn { t: 7, stopped: false, seq, .. } => pend = Some((true, at, *seq)),
+                        Ev::SentScr { ts: Some(ts), seq } if ts.as_slice() == [7] => pend = Some((false, at, *seq)),
+                        Ev::SentAnn { .. } | Ev::SentScr { .. } | Ev::SentBad { .. } => pend = None,
+                        Ev::GotAnnounceReply { t: 7, seq, .. } => {
+                            if let Some((true, s, i)) = pend.take() {
+                                mine.push((s, at, i, *seq));
+                            }
+                        }
+                        Ev::GotScrapeReply { files, seq } => {
+                            if let Some((false, s, i)) = pend.take() {
+                                let n = files.get(&7).map_or(0, |x| x.0.max(0) + x.1.max(0));
+                                scrs.push((s, at, i, *seq, n));
+                            }
+                        }
+                        _ => {}
+                    }
+                }
+                if !mine.is_empty() {
+                    anns.push(mine);
+                }
+            }
+            for (s_sent, s_done, s_inv, s_ret, got) in scrs {
+                let (mut lower, mut upper) = (0i64, 0i64);
+                for v in &anns {
+                    let alive = v.iter().filter(|a| a.3 < s_inv).last().map_or(false, |a| s_done + 2_000_000_000 < a.0 + age_ns);
+                    let seen = v.iter().any(|a| a.2 < s_ret);
+                    let gone = v.iter().filter(|a| a.2 < s_ret).all(|a| s_sent > a.1 + age_ns + int_ns + 1_500_000_000);
+                    if alive {
+                        lower += 1;
+                    }
+                    if seen && !gone {
+                        upper += 1;
+                    }
+                }
+                stats.evaluations += 1;
+                if got < lower {
+                    violations.push(Violation::new("C10", "peer-kept-until-deadline", "peer-gone-before-deadline", format!("scrape of the probe torrent sent at {} ms counts {} peers, but {} announced less than max_peer_age - 2 s = {} s before it (max_peer_age {} s, cleaning every {} s, {} socket x {} swarm workers)", s_sent / 1_000_000, got, lower, age - 2, age, interval, scn.socket_workers, scn.swarm_workers)));
+                    break;
+                } else if got > upper {
+                    violations.push(Violation::new("C10", "peer-gone-after-deadline", "peer-survives-deadline-and-pass", format!("scrape of the probe torrent sent at {} ms counts {} peers, but only {} announced within the last max_peer_age + cleaning interval + 1.5 s (max_peer_age {} s, cleaning every {} s, {} socket x {} swarm workers)", s_sent / 1_000_000, got, upper, age, interval, scn.socket_workers, scn.swarm_workers)));
+                    break;
+                } else {
+                    stats.probe(if upper == 0 { "expiry-probe-all-gone-confirmed" } else if lower > 0 { "expiry-probe-alive-confirmed" } else { "expiry-probe-inside-window" });
+                }
+            }
+        }
         // ---- closed connections leave no peers; open ones keep theirs (final quiescent scrape)
-        if violations.is_empty() && !col.final_scrape.is_empty() {
+        if violations.is_empty() && !col.final_scrape.is_empty() && scn.probe.is_none() {
             // expected entries: for each connection still open at the end, its last non-stopped permitted announce per torrent
             let mut expect: BTreeMap<(bool, u8), (i64, i64)> = BTreeMap::new();
             let mut uncertain: BTreeSet<(bool, u8)> = BTreeSet::new();
